@@ -820,6 +820,64 @@ func TestRingManyPushes(t *testing.T) {
 	vp.NonTrivialN("c11.ring-many", 2)
 }
 
+// VastCase: a ring buffer of a zero-size element type with a capacity around
+// 2^31, 2^32, 2^33 or 2^40 slots (no memory is needed) and a short history.
+// Values are indistinguishable; the oracle is Len and the number of values
+// each traversal yields, min(pushes, capacity).
+type VastCase struct {
+	Size   uint64 `json:"size"`
+	Pushes []int  `json:"pushes"` // pushes before each observation
+}
+
+func checkVast(c VastCase) error {
+	if c.Size > math.MaxInt {
+		vp.Class("ring-vast:capacity-not-representable-on-this-platform(skipped)")
+		return nil
+	}
+	rb := container.NewRingBuffer[struct{}](uint(c.Size))
+	var pushed uint64
+	for step, k := range c.Pushes {
+		for i := 0; i < k; i++ {
+			rb.Push(struct{}{})
+		}
+		pushed += uint64(k)
+		want := min(pushed, c.Size)
+		if uint64(rb.Len()) != want {
+			return fmt.Errorf("capacity %d, step %d, %d pushes: Len() = %d, want %d", c.Size, step, pushed, rb.Len(), want)
+		}
+		var fwd, rev, few uint64
+		rb.Range(func(struct{}) bool { fwd++; return fwd < 1000 })
+		rb.ReverseRange(func(struct{}) bool { rev++; return rev < 1000 })
+		rb.ReverseRange(func(struct{}) bool { few++; return few < 2 })
+		if w := min(want, 1000); fwd != w || rev != w || few != min(want, 2) {
+			return fmt.Errorf("capacity %d, step %d, %d pushes: Range yielded %d values, ReverseRange %d (both stopped at 1000), a ReverseRange stopped at the second value %d; want %d, %d, %d", c.Size, step, pushed, fwd, rev, few, w, w, min(want, 2))
+		}
+	}
+	vp.Class("ring-vast")
+	if c.Size >= 1<<32 {
+		vp.Class("ring-vast:capacity-2^32-or-more")
+	}
+	vp.NonTrivialStr("c11.ring-vast", fmt.Sprint(c))
+	vp.Sample("ring-vast", c)
+	return nil
+}
+
+var vastProp = vp.Register(vp.Prop[VastCase]{
+	Kind: "c11.ring-vast", Base: 1500,
+	Gen: func(t *rapid.T) VastCase {
+		base := rapid.SampledFrom([]uint64{1 << 31, 1 << 32, 1 << 32, 1 << 33, 3 << 31, 1 << 40, 1<<63 - 1, 1<<31 - 1}).Draw(t, "base")
+		d := rapid.SampledFrom([]int64{0, 0, 1, 2, 3, 5, 7, 64, -1, -2}).Draw(t, "d")
+		size := uint64(int64(base) + d)
+		if base == 1<<63-1 || base == 1<<31-1 {
+			size = base - uint64(max(d, -d))
+		}
+		return VastCase{Size: size, Pushes: rapid.SliceOfN(rapid.IntRange(0, 9), 1, 12).Draw(t, "pushes")}
+	},
+	Check: checkVast,
+})
+
+func TestRingVast(t *testing.T) { vp.Run(t, vastProp) }
+
 // TestRingWide (thorough tier, 32-bit variant only): a buffer of more than
 // 2^30 zero-size slots, pushed until it is full and has wrapped almost once
 // more, so that "position + index" passes 2^31.  Values of a zero-size type
